@@ -77,7 +77,7 @@ const MAX_IN_BLOCK_DISTACE: usize = 1 << 16;
 /// extra data structures to support fast `select0` queries,
 /// which otherwise are not supported.
 
-#[derive(Default, Debug, Clone, Serialize, Deserialize, PartialEq)]
+#[derive(Debug, Clone, Serialize, Deserialize, PartialEq)]
 pub struct DArray<const SELECT0_SUPPORT: bool = false> {
     bv: BitVector,
     ones_inventories: Inventories<true>,
@@ -181,6 +181,13 @@ impl<const BIT: bool> Inventories<BIT> {
                 std::iter::repeat(u16::MAX).take(curr_positions.len().div_ceil(SUBBLOCK_SIZE)),
             );
         }
+    }
+}
+
+impl<const SELECT0_SUPPORT: bool> Default for DArray<SELECT0_SUPPORT> {
+    /// The empty [`DArray`] (with its inventory for zeros, if `select0` is supported).
+    fn default() -> Self {
+        Self::new(BitVector::default())
     }
 }
 
